@@ -82,12 +82,34 @@ def _guard(fn, kw):
         return {"error": "error", "exc": type(ex).__name__}
 
 
-def all_cases(ctx):
-    mods, _ = load()
+QUICK_CAP = 600        # cases per relation in the quick tier (witness inputs are always kept)
+QUICK_ORACLE_CAP = 250
+
+
+def all_cases(ctx, cap=None):
+    """the modules' cases; in the quick tier at most `cap` per relation (seeded sample; the inputs of `_witness` theorems,
+    i.e. domain == "witness", are always kept), so that the quick check stays inside its time budget"""
+    mods, reg = load()
     cases = []
     for mod in mods:
         cases += mod.cases(ctx)
-    return cases
+    if cap is None:
+        cap = QUICK_CAP if ctx.tier == "quick" else None
+    if cap is None:
+        return cases
+    by = {}
+    for c in cases:
+        by.setdefault(c[0], []).append(c)
+    out = []
+    for name, cs in by.items():
+        if len(cs) > cap:
+            R = reg[name]
+            wit = [c for c in cs if R.domain(c[1], c[2]) == "witness"]
+            rest = [c for c in cs if not any(c is w for w in wit)]
+            cs = wit + ctx.rng.sample(rest, min(cap, len(rest)))
+            ctx.count("quick_cap:" + name)
+        out += cs
+    return out
 
 
 def correspondence(ctx):
@@ -157,7 +179,9 @@ def oracle_relation(name, par, kw):
 def oracle(ctx, fail, cases=None):
     """the relations on the real functions only (independent of the driver and of the Lean build)"""
     n = 0
-    for name, par, kw in (all_cases(ctx) if cases is None else cases):
+    if cases is None:
+        cases = all_cases(ctx, cap=QUICK_ORACLE_CAP if ctx.tier == "quick" else None)
+    for name, par, kw in cases:
         try:
             r = oracle_relation(name, par, kw)
         except Exception as ex:      # a crash of the adapter on a transformed input is reported, not swallowed
